@@ -15,6 +15,7 @@
 package service
 
 import (
+	"bufio"
 	"fmt"
 	"io"
 	"sync"
@@ -294,6 +295,19 @@ func (svc *service) stop() {
 	svc.wmu.Unlock()
 }
 
+// checkSize refuses a request the outgoing buffer can never take before it is
+// registered in an ack queue: it could not be sent, would never be acknowledged
+// and, the queues completing in order, would hold up every later request.
+func (svc *service) checkSize(msg message.Message) error {
+	svc.wmu.Lock()
+	defer svc.wmu.Unlock()
+
+	if svc.out != nil && int64(msg.Len()) > svc.out.size {
+		return fmt.Errorf("(%s) Error sending %s message: %v", svc.cid(), msg.Name(), bufio.ErrBufferFull)
+	}
+	return nil
+}
+
 func (svc *service) publish(msg *message.PublishMessage, onComplete OnCompleteFunc) error {
 	// A request that needs an acknowledgement is registered in the ack queue
 	// before it is written: the acknowledgement may be processed before this
@@ -303,12 +317,18 @@ func (svc *service) publish(msg *message.PublishMessage, onComplete OnCompleteFu
 		if err := svc.assignPacketID(msg); err != nil {
 			return err
 		}
+		if err := svc.checkSize(msg); err != nil {
+			return err
+		}
 		if err := svc.sess.Pub1ack.Wait(msg, onComplete); err != nil {
 			return err
 		}
 
 	case message.QosExactlyOnce:
 		if err := svc.assignPacketID(msg); err != nil {
+			return err
+		}
+		if err := svc.checkSize(msg); err != nil {
 			return err
 		}
 		if err := svc.sess.Pub2out.Wait(msg, onComplete); err != nil {
@@ -405,6 +425,9 @@ func (svc *service) subscribe(msg *message.SubscribeMessage, onComplete OnComple
 	if err := svc.assignPacketID(msg); err != nil {
 		return err
 	}
+	if err := svc.checkSize(msg); err != nil {
+		return err
+	}
 	if err := svc.sess.Suback.Wait(msg, onc); err != nil {
 		return err
 	}
@@ -474,6 +497,9 @@ func (svc *service) unsubscribe(msg *message.UnsubscribeMessage, onComplete OnCo
 
 	// Register first, then send (see publish).
 	if err := svc.assignPacketID(msg); err != nil {
+		return err
+	}
+	if err := svc.checkSize(msg); err != nil {
 		return err
 	}
 	if err := svc.sess.Unsuback.Wait(msg, onc); err != nil {
